@@ -16,6 +16,12 @@ IsNormal(a) == a[1] = 1
 \* ln of a positive normal float given as me:  ln(m / 2^23) + (e + 23) ln 2
 LnME(a) == Add(Ln(DivPow2(FromInt(a[3]), 23)), MulInt(Ln2, a[4] + 23))
 
+\* the same float logged two ways (decimal limbs and exact mantissa/exponent) must agree: guards the harness's encoders
+FxOfME(a) == LET v == IF a[4] >= 0 THEN MulPow2(FromInt(a[3]), a[4]) ELSE DivPow2(FromInt(a[3]), -a[4])
+             IN IF a[2] < 0 THEN Neg(v) ELSE v
+WireConsistent(xfx, xme) == (xfx[1] # 9 /\ xme[1] \in {1, 2} /\ xme[4] \in -140..3) =>
+                               Cmp(Abs(Sub(xfx, FxOfME(xme))), Units(12)) <= 0
+
 \* ---- cbrtf: |t - cbrt(x)| <= k ulp(t), decided exactly on integers:
 \*      (m_t - k)^3 2^(3 e_t)  <=  m_x 2^(e_x)  <=  (m_t + k)^3 2^(3 e_t)
 Cube(n) == LET a == NatOf(n) IN NatMul(NatMul(a, a), a)
